@@ -227,7 +227,7 @@ def make_initializer(spec):
         tok = threading.Lock()  # the process object cannot be pickled: every spawn fails
     return {
         "initializer": lv_tasks.init,
-        "initargs": (tok, cf, spec.get("fail_on"), spec.get("leak0", False)),
+        "initargs": (tok, cf, spec.get("fail_on"), spec.get("leak0", False), spec.get("fail_exc", "RuntimeError")),
     }
 
 
@@ -355,7 +355,13 @@ def op_get_reusable(op, oid, ctx):
     del prev
     log("snap_before", oid=oid, ex=name, snap=before, glob=ex_snapshot(__import__("loky.reusable_executor").reusable_executor._executor))
     kw = build_kw(op.get("kw"))
-    ex = get_reusable_executor(**kw)
+    if op.get("warn_as_error"):
+        # the caller runs this call with warnings turned into errors (pytest -W error, a strict application)
+        with warnings.catch_warnings():
+            warnings.simplefilter("error")
+            ex = get_reusable_executor(**kw)
+    else:
+        ex = get_reusable_executor(**kw)
     after = ex_snapshot(ex)
     # liveness of a replaced instance at return (read-only /proc + thread flag)
     replaced = None
